@@ -9,7 +9,7 @@ RULE = ("all globs of <=K tokens over a 26-token alphabet (literals incl. . - + 
         "{a,b,z-with-dot,.,-,A,/,$,*} (and, for globs of <=2 tokens, strings of <=5 characters over {a,b,LF,TAB,/}) x ignore-case on/off (quick K=3,L=4; thorough K=4,L=4, K=3,L=5 and K=5,L=3); oracle 1: "
         "independent backtracking matcher == Pattern::matches; oracle 2: every ancestor directory of a matching path "
         "passes matches_partially and PathSelector::matches_dir; oracle 3: as --exclude, no non-excluded file lies "
-        "below a refused directory unless an ancestor is itself fully matched; command-line cross-check: every glob of <=2 (thorough 3) tokens given to the real binary as --name, --path and --exclude, with and without -i, on a fixed tree of 16 files: the selected set must be the reference matcher's (files below a fully excluded directory: don't care). distinct_nontrivial = number of "
+        "below a refused directory unless an ancestor is itself fully matched; two include patterns at once: every pair of globs of <=2 tokens that contain '/' or '**' (selected iff one of them matches; every ancestor of a selected path enterable); command-line cross-check: every glob of <=2 (thorough 3) tokens given to the real binary as --name, --path and --exclude, with and without -i, on a fixed tree of 16 files: the selected set must be the reference matcher's (files below a fully excluded directory: don't care). distinct_nontrivial = number of "
         "(glob, path, case-mode) triples in which the glob matched (each triple is distinct by construction).")
 ASSUMPTIONS = ["'[!..]' may or may not match '/' (documentation silent): both accepted",
                "token sequences whose concatenation re-tokenises differently (e.g. '*' '*') are skipped; the merged "
@@ -36,6 +36,8 @@ def cases(tier, seed):
     for k, l in ([(2, 5)] if tier == "quick" else [(3, 5), (2, 6)]):
         n = 16 if k <= 2 else SHARDS
         out += [{"tokens": k, "pathlen": l, "shard": "%d/%d" % (i, n), "alpha": "ctl"} for i in range(n)]
+    # two --path patterns at once
+    out += [{"pairs": True, "tokens": 2, "pathlen": 3 if tier == "quick" else 4, "shard": "%d/%d" % (i, 32)} for i in range(32)]
     # command-line cross-check: --name / --path / --exclude x -i on the real binary over a fixed tree
     n = 32 if tier == "quick" else 256
     out += [{"cli": True, "tokens": 2 if tier == "quick" else 3, "shard": "%d/%d" % (i, n)} for i in range(n)]
@@ -59,6 +61,17 @@ def evaluate(case):
         return {"violations": vs, "evaluations": summ["evaluations"],
                 "counters": {"cli_runs": summ["globs"], "cli_matches": summ["matches"]},
                 "outcome": "cli_ok" if not viol else "cli_violations", "sample": {"case": case, "summary": summ}}
+    if case.get("pairs"):
+        viol, summ = U.run_unit(["glob", "--pairs", "--tokens", str(case["tokens"]), "--pathlen", str(case["pathlen"]),
+                                 "--shard", case["shard"]])
+        vs = []
+        for v in viol:
+            d = dict(v["sig"])
+            d["detail"] = "%d case(s), e.g. %s" % (v["count"], v["examples"][0])
+            vs.append(d)
+        return {"violations": vs, "evaluations": summ["evaluations"],
+                "counters": {"pair_selectors": summ["globs"], "pair_matches": summ["matches"], "dir_checks": summ["dir_checks"]},
+                "outcome": "pairs_ok" if not viol else "pairs_violations", "sample": {"case": case, "summary": summ}}
     if "one" in case:
         args = ["glob", "--one", case["one"], "--pathlen", str(case.get("pathlen", 4))]
         if case.get("ic"):
